@@ -76,7 +76,7 @@ func (x *Exec) Trace() []string { return x.s.trace }
 
 func (e *explorer) runOne(prefix []TransKey, sleep []TransKey, trace bool) (*Sched, Outcome) {
 	s := &Sched{doneCh: make(chan struct{}), prefix: prefix, initSleep: sleep, horizon: e.cfg.Horizon,
-		closedSet: map[uintptr]bool{}, objHash: map[uintptr]uint64{}, env: map[string]any{}, traceOn: trace, noteSet: map[string]bool{}}
+		closedSet: map[uintptr]bool{}, objHash: map[uintptr]uint64{}, env: map[string]any{}, keep: map[uintptr]any{}, traceOn: trace, noteSet: map[string]bool{}}
 	x := &Exec{s: s}
 	s.x = x
 	cur = s
@@ -155,7 +155,9 @@ func (e *explorer) explore(prefix []TransKey, sleep []TransKey, level int) {
 	}
 	s, o := e.runOne(prefix, sleep, false)
 	if o.Kind == "diverged" {
-		fmt.Fprintf(os.Stderr, "INTERNAL: replay diverged: %s\n", o.Detail)
+		fmt.Fprintf(os.Stderr, "INTERNAL: replay diverged in %s: %s\n", e.cfg.Name, o.Detail)
+		s2, _ := e.runOne(prefix[:len(s.nodes)], nil, true)
+		fmt.Fprintf(os.Stderr, "prefix trace:\n%s\n", strings.Join(s2.trace, "\n"))
 		os.Exit(2)
 	}
 	nodes := s.nodes
